@@ -165,6 +165,11 @@ class ClearAndMasked(e2.Case):
             arr[...] = content
             masked_arbitrary = buf.is_completely_masked()
             snap = arr.copy()
+            masked_alpha0 = None
+            if self.mode == "RGBA":
+                # every pixel undefined by the mode's definition (alpha 0) while the colour bytes are arbitrary
+                arr[:, :, 3] = 0
+                masked_alpha0 = buf.is_completely_masked()
             buf.clear()
             cleared = buf.asarray().copy()
             masked_after_clear = buf.is_completely_masked()
@@ -174,7 +179,7 @@ class ClearAndMasked(e2.Case):
             else:
                 arr[pr, pc] = 7
             masked_one_defined = buf.is_completely_masked()
-        return dict(cleared=cleared, snap=snap, m0=masked_arbitrary, m1=masked_after_clear, m2=masked_one_defined, p=(pr, pc))
+        return dict(cleared=cleared, snap=snap, m0=masked_arbitrary, m1=masked_after_clear, m2=masked_one_defined, m3=masked_alpha0, p=(pr, pc))
 
     def claims(self, w, outs):
         m = self.mode
@@ -202,6 +207,9 @@ class ClearAndMasked(e2.Case):
                     "so PyramidIO.write_image stores all-undefined integer tiles" % m)
         w.claim("masked-after-clear", symx.B(outs["m1"]) == (m != "RGB"), probe=lambda ro, val: bool(ro["m1"]) == (m != "RGB"),
                 sig=sig, what=what_int if sig else "is_completely_masked() must be True right after clear() (%s)" % m)
+        if m == "RGBA":
+            w.claim("masked-when-every-alpha-is-zero", symx.B(outs["m3"]), probe=lambda ro, val: bool(ro["m3"]),
+                    what="is_completely_masked() must be True for an RGBA tile whose pixels all have alpha 0, whatever the colour bytes hold")
         w.claim("not-masked-with-one-defined-pixel", z3.Not(symx.B(outs["m2"])), probe=lambda ro, val: not bool(ro["m2"]),
                 what="is_completely_masked() must be False when a pixel is defined (%s)" % m)
         # arbitrary content: masked  ==>  the inspected pixel is undefined
